@@ -34,7 +34,7 @@ inductive Trans (e : Ev) (w : Bool) : Agent → Agent → Prop
   | remote {a : Agent} (c : Cand) (hc : a.closed = false)
       (hb : a.cfg.blockedIPs.contains (ipOf c.addr) = false)
       (hf : (a.remotes.filter (·.net == c.net)).find? (·.equal c) = none)
-      (hsrc : (c.ty = 3 ∧ c.rel = some 0 ∧ c.form = 0) ∨ ∃ now, e = .addRemote now c) : Trans e w a (arcA3 a c)
+      (hsrc : (c.ty = 3 ∧ c.rel = some 0 ∧ c.form = 0 ∧ c.tt = 0) ∨ ∃ now, e = .addRemote now c) : Trans e w a (arcA3 a c)
   /-- a validated source address is cached -/
   | cache {a : Agent} (x : Nat × Nat × Nat) (hl : ∃ l ∈ lcsOf a, l.uid = x.1)
       (hr : ∃ r ∈ rcsOf a, r.uid = x.2.2) (hc : a.closed = false) :
@@ -129,7 +129,7 @@ theorem Chain.setConnState {e : Ev} {w : Bool} (a : Agent) (s : ConnState) (hs :
   · exact .one (.connState s hs hn)
 
 theorem Chain.addRemoteCandidate {e : Ev} {w : Bool} {a : Agent} (hi : Inv a) (c : Cand) (hc : a.closed = false)
-    (hsrc : (c.ty = 3 ∧ c.rel = some 0 ∧ c.form = 0) ∨ ∃ now, e = .addRemote now c) :
+    (hsrc : (c.ty = 3 ∧ c.rel = some 0 ∧ c.form = 0 ∧ c.tt = 0) ∨ ∃ now, e = .addRemote now c) :
     Chain e w a (a.addRemoteCandidate c).1 := by
   cases hb : a.cfg.blockedIPs.contains (ipOf c.addr) with
   | true => rw [arc_blocked a c hb]; exact .refl
@@ -180,7 +180,7 @@ theorem Chain.handleInbound {e : Ev} {w : Bool} {a : Agent} (hi : Inv a) (hc : a
               unfold hiDiscover
               split
               · exact .refl
-              · exact Chain.addRemoteCandidate hi _ hc (Or.inl ⟨rfl, rfl, rfl⟩)
+              · exact Chain.addRemoteCandidate hi _ hc (Or.inl ⟨rfl, rfl, rfl, rfl⟩)
             generalize hiDiscover a l src m (a.findRemote l.net src) = d at h1 h2 h3 h4 hd
             obtain ⟨b, o0, rc⟩ := d
             simp only [] at h1 h2 h3 h4 hd ⊢
@@ -233,7 +233,9 @@ theorem step_split {a : Agent} (h : Inv a) (e : Ev) :
     | true => exact ⟨a, .refl, by simpa using EvoW.refl a⟩
     | false =>
       simp only [Bool.false_eq_true, if_false]
-      exact ⟨_, Chain.addRemoteCandidate h c hc (Or.inr ⟨now, rfl⟩), EvoW.runForced _ now⟩
+      split
+      · exact ⟨a, .refl, EvoW.refl a⟩
+      · exact ⟨_, Chain.addRemoteCandidate h c hc (Or.inr ⟨now, rfl⟩), EvoW.runForced _ now⟩
   | start now ctl ru rp =>
     simp only [IceModel.AgentCore.step]
     by_cases hc : a.closed = true
